@@ -128,7 +128,9 @@ MK_SNIPPETS = [None, {'foo': 'div.x>span{hi}'}, {'bad': 'a)'}, {'foo': 'ul>li*2'
                {'foo': 'bad'}, {'p': 'p.lead'}]
 MK_ABBRS = ['div', 'ul>li*3', 'a', 'p*', 'ul>li*', '.b>._e', '.block>.-elem_mod+.-x', 'bad', 'foo', 'a)', 'a[b="', '!',
             'ul>li.item$*2>{$#}', 'foo>bad', 'p{hi}+foo', 'input:t', 'a[href=x]{t}', '(a>b)*2+c', 'bad2', 'foo*2>bad',
-            '.b_m>.-e>.--f', 'p>{$#}', 'ul>li*>a', 'img', 'bad+p', 'p+bad', '', 'gs', 'gs>foo']
+            '.b_m>.-e>.--f', 'p>{$#}', 'ul>li*>a', 'img', 'bad+p', 'p+bad', '', 'gs', 'gs>foo',
+            # rejected by the tokenizer while a bracket / quote / field is open, then ordinary operators again
+            'p{${1', 'a[href=${1', 'p{${1:text', 'a{t', 'ul>li[title="x', '(a>b', 'ul>li+p', 'div>span^em', 'a+b>c']
 MK_OPTIONS = [None, {'bem.enabled': True}, {'comment.enabled': True}, {'output.field': '@tabstop'},
               {'bem.enabled': True, 'output.field': '@tabstop'}, {'output.format': False},
               {'bem.enabled': True, 'bem.element': '-', 'comment.enabled': True}, {'jsx.enabled': True}]
@@ -142,7 +144,8 @@ CSS_SNIPPETS = [None, {'foo': 'margin:10'}, {'foo': 'padding:5 7'}, {'foo': 'mar
                 {'foo': 'margin:10', 'bad': 'margin:(('}, {'p': 'padding:4'}]
 CSS_ABBRS = ['m10', 'p10-20', 'foo', 'foo20', 'fz1.5', 'c#f', 'bd', 'lg(top, red)', 'd:n', 'pos:a', 'w100p', 'z1', 'op.5', 'bar',
              'm0-a', '@k', '!', '-', 'm10!', 'gt', 'm', 'p', 'foo+m', 'foo+foo', 'm+foo', 'bar+foo', 'zom', 'animic', 'fo', 'mt', 'p1.5',
-             'bad', 'trf:r', 'bgc#1', 'm-10--20', 'foo!', 'w', 'c:r(1)', '10', 'auto', '', 'gfoo', 'gfoo+foo']
+             'bad', 'trf:r', 'bgc#1', 'm-10--20', 'foo!', 'w', 'c:r(1)', '10', 'auto', '', 'gfoo', 'gfoo+foo',
+             'm${1', 'p${1:{{', 'c:r(1', 'ff"x', 'm10+p${a', 'lg(top']
 CSS_OPTIONS = [None, {'stylesheet.intUnit': 'pt'}, {'stylesheet.intUnit': 'px'}, {'stylesheet.intUnit': ''},
                {'stylesheet.floatUnit': 'rem'}, {'stylesheet.intUnit': 'pt', 'stylesheet.floatUnit': 'cm'},
                {'stylesheet.unitAliases': {'e': 'em', 'p': 'pc', 'x': 'ex', 'r': 'rem'}}, {'stylesheet.shortHex': False},
